@@ -202,12 +202,22 @@ type pathOutcome struct {
 
 // Explore runs entry(args...) over all feasible paths.
 func (e *Engine) Explore(entry *ssa.Function, args []Value, setup func(st *State), cfgp *Config) *Report {
+	return e.ExploreFunc(entry.String(), func(st *State) {
+		if setup != nil {
+			setup(st)
+		}
+		st.call(nil, 0, entry, args)
+	}, cfgp)
+}
+
+// ExploreFunc explores all feasible paths of an arbitrary driver function.
+func (e *Engine) ExploreFunc(name string, run func(st *State), cfgp *Config) *Report {
 	cfg := e.Cfg
 	if cfgp != nil {
 		cfg = *cfgp
 	}
 	t0 := time.Now()
-	rep := NewReport(entry.String())
+	rep := NewReport(name)
 	var mu sync.Mutex
 	cond := sync.NewCond(&mu)
 	work := [][]Decision{nil}
@@ -275,7 +285,7 @@ func (e *Engine) Explore(entry *ssa.Function, args []Value, setup func(st *State
 						return
 					}
 				}
-				out := e.runPath(sol, entry, args, prefix, setup, wantSample, &cfg)
+				out := e.runPath(sol, run, prefix, wantSample, &cfg)
 
 				mu.Lock()
 				active--
@@ -355,7 +365,7 @@ func (e *Engine) newState(sol *Solver, prefix []Decision, cfg *Config) *State {
 	}
 }
 
-func (e *Engine) runPath(sol *Solver, entry *ssa.Function, args []Value, prefix []Decision, setup func(*State), wantSample bool, cfg *Config) (out pathOutcome) {
+func (e *Engine) runPath(sol *Solver, run func(*State), prefix []Decision, wantSample bool, cfg *Config) (out pathOutcome) {
 	st := e.newState(sol, prefix, cfg)
 	out.st = st
 	sol.Send("(push 1)")
@@ -406,10 +416,7 @@ func (e *Engine) runPath(sol *Solver, entry *ssa.Function, args []Value, prefix 
 			st.runInit(init)
 		}
 	}
-	if setup != nil {
-		setup(st)
-	}
-	st.call(nil, 0, entry, args)
+	run(st)
 	out.status = "ok"
 	return
 }
@@ -480,4 +487,39 @@ func CloseSolvers() {
 		}
 		delete(pool, k)
 	}
+}
+
+// ---- API for drivers outside the package (tsmini, cross-language checks) ----
+
+func (st *State) Fresh(name string, w uint8) *Term { return st.fresh(name, w) }
+func (st *State) Cover(label string)               { st.covers[label] = true }
+func (st *State) Simp(t *Term) *Term               { return st.simp(t) }
+func (st *State) Note(s string)                    { st.note(s) }
+func (st *State) End(status, msg string)           { st.end(status, msg) }
+func (st *State) Step(n int64) {
+	st.steps += n
+	if st.steps > st.cfg.MaxSteps {
+		st.end("unwind", fmt.Sprintf("step budget %d exceeded", st.cfg.MaxSteps))
+	}
+}
+func (st *State) Printed(s string) { st.Output = append(st.Output, s) }
+
+// PanicInfo describes a modelled Go panic that escaped a called function.
+type PanicInfo struct {
+	Kind string
+	Msg  string
+}
+
+// CallFunc calls an interpreted function; a modelled panic is returned, not propagated.
+func (st *State) CallFunc(fn *ssa.Function, args []Value) (res Value, pi *PanicInfo) {
+	defer func() {
+		if r := recover(); r != nil {
+			if gp, ok := r.(*goPanic); ok {
+				pi = &PanicInfo{Kind: gp.Kind, Msg: gp.Msg}
+				return
+			}
+			panic(r)
+		}
+	}()
+	return st.call(nil, 0, fn, args), nil
 }
